@@ -1351,6 +1351,21 @@ def oracle_c05(ctx, S):
                 s.close()
                 continue
             if _ack(S, o):
+                # "until the next write of that register": other commands in between (none of them a
+                # write of the same register family, none making this board unreachable)
+                other = str(int(bn) % 4 + 1)
+                fam = 'ATT' if kind == 'ATT' else kind
+                between = ['DBE MODE BOARD %s MFS_7' % bn, 'DBE SETALLMODE 3-Band', 'DBE GETCFG', 'DBE GETSTATUS BOARD %s' % bn,
+                           'DBE SETSTATUS BOARD %s VALUE 1' % other, 'DBE SETSTATUS BOARD %s VALUE 2' % bn,
+                           'DBE STOREALLMODE X%d' % rng.randrange(99), 'garbage', 'DBE ReadALLDIAG',
+                           'DBE GETDBEATT prova', 'DBE SETATT 99 BOARD %s VALUE 1' % bn]
+                for rr in ('ATT', 'AMP', 'EQ', 'BPF'):
+                    if rr != fam and kind != 'STATUS':
+                        between.append('DBE SET%s %s BOARD %s VALUE %s' % (rr, '2', bn, '1'))
+                        between.append('DBE SETDBE%s prova %s' % (rr, '1'))
+                if kind != 'STATUS':
+                    for _k in range(rng.randrange(0, 4)):
+                        s.feed(rng.choice(between) + '\r\n')
                 if kind == 'ATT':
                     r = s.feed('DBE GETSTATUS BOARD %s\r\n' % bn)[-1]
                     atts = r[1].split('ATT=[ ')[1].split(' ]')[0].split('  ') if r[0] == 'R' and 'ATT=[' in r[1] else []
